@@ -2,8 +2,12 @@
 from ..scen_print import print_string, print_numbers, json_framing, print_structure
 
 
+from ._arith import arithmetic
+
+
 def run(ctx):
     print_string(ctx)
     print_numbers(ctx)
     json_framing(ctx)
     print_structure(ctx)
+    arithmetic(ctx, which=None if not ctx.quick else ['add', 'times', 'divide', 'round'], ill_typed=False)
